@@ -772,10 +772,10 @@ def rule_R7iter(text, applied):
     cnt = 0
     while True:
         m_text = mask(text)
-        m = re.search(r"\bfor\s+(\w+)\s+in\s+([\w\.]+?)\s*\.\s*iter\(\)\s*\{", m_text)
+        m = re.search(r"\bfor\s+(\w+)\s+in\s+(?:&\s*([\w\.]+?)|([\w\.]+?)\s*\.\s*iter\(\))\s*\{", m_text)
         if not m:
             break
-        x_name, coll = m.group(1), "".join(m.group(2).split())
+        x_name, coll = m.group(1), "".join((m.group(2) or m.group(3)).split())
         ob = m.end() - 1
         cb = match_close(m_text, ob)
         if re.search(r"\bcontinue\b|\bbreak\s*'", m_text[ob + 1:cb]):
